@@ -21,6 +21,8 @@ def run(chk):
              "guarded on the same V (guard interpreted for V = 0 and V = high)")
     chk.rule("TRIM.last-kept", "TrimCollinear's main loop tests IsCollinear(last kept vertex, candidate, next input vertex); the kept iterator "
              "is re-pointed to the candidate whenever one is kept")
+    chk.rule("EPS.threshold", "every comparison of a squared distance with the squared epsilon in SimplifyPath and RDP draws the line at "
+             "'removable iff distance <= epsilon' (all sites agree)")
     chk.rule("ERASE", "StripDuplicates calls only erase / pop_back on its path")
     for cfg in cfgs:
         db = AstDB(cfg)
@@ -29,6 +31,7 @@ def run(chk):
         e11.rule_erase_only(db, chk, cfg)
         e11.rule_pinned_ends(db, chk, cfg)
         e11.rule_trim_last_kept(db, chk, cfg)
+        e11.rule_eps_threshold(db, chk, cfg)
     n = len(cfgs)
     chk.floor("MEMBER", 12 * n)
     chk.floor("MONO", 3 * n)
